@@ -9,7 +9,9 @@
 (*   "uni"     non-ASCII, percent-encoded as UTF-8 bytes in a URI          *)
 (*   "pct"     a literal % (encoded as %25)                                *)
 (*   "hash" "qmark"  delimiters of URI components (# ?)                    *)
-(*   "plus" "amp" "dot" "colon"  legal in both, sometimes special          *)
+(*   "plus" "amp" "dot" "colon" "tilde"  legal in both, sometimes special  *)
+(*   "bslash" "bracket"  \ and [ : encoded in a URI, \ is a path separator  *)
+(*             on other systems                                            *)
 (* Ideal: Decode(Encode(n)) = n for every name, so the note addressed by   *)
 (* the editor's URI is the loaded one.  Implementation-shaped: the server  *)
 (* at the pinned commit trims the base path from the *encoded* URI without *)
@@ -18,8 +20,8 @@
 (***************************************************************************)
 EXTENDS Naturals, Sequences, FiniteSets, TLC
 
-Classes == {"plain", "space", "uni", "pct", "hash", "qmark", "plus", "amp", "dot", "colon"}
-NeedsEncoding == {"space", "uni", "pct", "hash", "qmark"}
+Classes == {"plain", "space", "uni", "pct", "hash", "qmark", "plus", "amp", "dot", "colon", "bslash", "bracket", "tilde"}
+NeedsEncoding == {"space", "uni", "pct", "hash", "qmark", "bslash", "bracket"}
 
 \* a URI is the name with every class that needs it marked as encoded
 Encode(n) == [i \in 1..Len(n) |-> IF n[i] \in NeedsEncoding THEN <<"enc", n[i]>> ELSE <<"raw", n[i]>>]
